@@ -1,5 +1,6 @@
 //@include prelude/head.rs
-broadcast use {ax::axiom_string_eq_spec, ax::axiom_string_obeys_eq, ax::axiom_string_to_string};
+//@include prelude/hash.rs
+broadcast use {vstd::std_specs::hash::group_hash_axioms, axh::axiom_uuid_key_model, ax::axiom_string_eq_spec, ax::axiom_string_obeys_eq, ax::axiom_string_to_string};
 //@props C03 C14 C20 C01 C02 C04
 //@include regions/op_types.rs
 //@include vocab/syncmodel.rs
